@@ -187,6 +187,28 @@ pub fn run(job: &Value) {
                 }
             }
             // the same parameters through other input representations: equal value, equal print, equal samples
+            // clone_from into destinations that held other values: equal value, equal print, equal samples
+            if let Caught::Ok(vs) = guarded(|| s.clone_from_variants()) {
+                for (name, c) in vs {
+                    let mut ra = srng(mix(&[vseed, idx as u64, 0xCF]));
+                    let mut rb = srng(mix(&[vseed, idx as u64, 0xCF]));
+                    let ha = guarded(|| (0..64).map(|_| c.call_hash(&mut ra)).collect::<Vec<u64>>());
+                    let hb = guarded(|| (0..64).map(|_| rebuilt.call_hash(&mut rb)).collect::<Vec<u64>>());
+                    calls += 128;
+                    pairs += 64;
+                    let same_samples = match (ha, hb) {
+                        (Caught::Ok(a), Caught::Ok(b)) => a == b && ra.count == rb.count,
+                        (Caught::Ok(_), _) | (_, Caught::Ok(_)) => false,
+                        _ => true,
+                    };
+                    let same_print = c.debug_full() == s.debug_full();
+                    let same_value = s.eq_dyn(c.as_ref()) != Some(false);
+                    if !(same_samples && same_print && same_value) {
+                        rep.viol("clone_from_differs", json!({"which": name, "same_samples": same_samples, "same_print": same_print, "same_value": same_value}));
+                        break;
+                    }
+                }
+            }
             let alts = match guarded(|| s.alt_builds()) {
                 Caught::Ok(v) => v,
                 Caught::Panic(m) => {
